@@ -156,6 +156,15 @@ def Coll.one (c : Coll) (s : Search) : Coll × Search × Res Obj :=
     | (c, s, o :: _, none) => (c, s, .ok o)
     | (c, s, [], none) => (c, s, .panic)
 
+/-- `Search.Expects` / `Search.ExpectsZeroOrN`: a search that holds another number of results
+    becomes a failed search (an earlier error is kept) -/
+def Search.expects (s : Search) (zeroOk : Bool) (n : Nat) : Search :=
+  match s.err with
+  | some _ => s
+  | none =>
+    let found := s.fields.length
+    if found == n || (zeroOk && found == 0) then s else { s with err := some .unexpectedN }
+
 /-- `Search.Delete` -/
 def Coll.searchDelete (c : Coll) (s : Search) : Coll × Res Unit :=
   match s.err with
